@@ -56,6 +56,10 @@ def run(ctx):
     ck.rule('C01-D6', 'a URL that is requested without having been checked out of the URL table (the target of a redirect followed '
                       'inside one item) is registered in, or looked up in, the URL table')
 
+    ck.rule('C01-D7', 'the depth stored for a URL is the smallest depth at which it was discovered: adding a URL that is already in the '
+                      'table lowers its level (and inline level) when the new discovery is shallower - otherwise the answer order of '
+                      'concurrent requests decides whether pages below it are within --level')
+
     # ------------------------------------------------------------------ D1
     us = repo.cls(MODEL + ':URLString')
     qu = repo.cls(MODEL + ':QueuedURL')
@@ -391,6 +395,20 @@ def run(ctx):
 
     # ------------------------------------------------------------------ D6
     _d6_redirect_hops(ctx)
+
+    # ------------------------------------------------------------------ D7
+    am = repo.func('wpull.database.sqltable:BaseSQLURLTable.add_many')
+    lowers = False
+    for c in U.calls(am.node):
+        t = norm_text(c)
+        if (U.attr_name(c) in ('update', 'on_conflict_do_update') or (isinstance(c.func, ast.Name) and c.func.id == 'update')) and 'level' in t:
+            lowers = True
+        if U.attr_name(c) == 'values' and any(k.arg in ('level', 'inline_level') for k in c.keywords) and 'update' in norm_text(c.func):
+            lowers = True
+    ck.expect(lowers, 'C01-D7', am.qual, 'a re-discovered URL gets the smaller depth',
+              'add_many only inserts (INSERT OR IGNORE): a URL first reached through a long path keeps that depth when a shorter path turns up '
+              'later, and its own links are then counted one level too deep - with --level N pages at depth N are dropped or kept depending on '
+              'which of two concurrent requests is answered first', am.loc())
 
 
 TABLE_API = {'add_child_url', 'add_url', 'add_one', 'add_many', 'contains', 'get_one'}
